@@ -174,6 +174,14 @@ fn gen_world_base(rng: &mut Rng, mut o: Opts, tags: &mut Vec<&'static str>) -> (
             f.genes.retain(|r| !r.terms.is_empty());
             f.omim.retain(|r| !r.terms.is_empty());
             f.orpha.retain(|r| !r.terms.is_empty());
+            // an ORPHA disease with the numeric id, name and terms of an OMIM disease
+            if rng.chance(1, 3) && !f.omim.is_empty() {
+                let src = rng.pick(&f.omim).clone();
+                if !f.orpha.iter().any(|r| r.id == src.id) {
+                    f.orpha.push(src);
+                    tags.push("twin_disease");
+                }
+            }
             let transitive = rng.chance(1, 2);
             tags.push("jax");
             let genes = if transitive { crate::jax::render_phenotype_to_genes(rng, &f) } else { crate::jax::render_genes_to_phenotype(rng, &f) };
